@@ -45,6 +45,32 @@ def build(R, spec, cache):
     return rs
 
 
+def build_late(R, spec, cache, rng):
+    """the same set, but one member is added while an iterator is open (which is then drained or abandoned): the
+    finished object must answer like any other object with these members - answers do not depend on the history"""
+    ops = [('rrule', kw) for kw in spec[1]] + [('rdate', d) for d in spec[2]] + [('exrule', kw) for kw in spec[3]] + [('exdate', d) for d in spec[4]]
+    late = rng.randrange(len(ops))
+    rs = R.rruleset(cache=cache)
+
+    def apply(op):
+        kind, v = op
+        getattr(rs, kind)(R.rrule(**v) if kind in ('rrule', 'exrule') else v)
+    for i, op in enumerate(ops):
+        if i != late:
+            apply(op)
+    it = iter(rs)
+    for _ in range(rng.randint(0, 12)):
+        try:
+            next(it)
+        except StopIteration:
+            break
+    apply(ops[late])
+    if rng.random() < .7:
+        for _ in it:
+            pass
+    return rs
+
+
 def gen_spec(rng, R):
     if rng.random() < .6:
         return ('rule', U.finite_rule_kw(rng, R))
@@ -174,6 +200,8 @@ def cache_state(obj):
 
 
 def prepare(R, spec, L, state, rng):
+    if state.startswith('late-'):
+        return build_late(R, spec, state == 'late-cached', rng)
     obj = build(R, spec, state != 'uncached')
     if state == 'partial':
         it = iter(obj)
@@ -206,7 +234,7 @@ def one_query(ctx, spec, sj, L, obj, q, initial):
 def check_object(ctx, R, spec, sj, L, state, rng):
     qs = gen_queries(rng, L)
     try:
-        if state in ('uncached', 'complete', 'fresh-sequence'):
+        if state in ('uncached', 'complete', 'fresh-sequence', 'late-cached', 'late-uncached'):
             # one object, all queries in random order: answers must not depend on which queries ran before
             obj = prepare(R, spec, L, 'fresh' if state == 'fresh-sequence' else state, rng)
             for q in qs:
@@ -275,6 +303,10 @@ def run(ctx):
         ctx.count('len_%d' % min(len(L) // 10 * 10, 30))
         for state in ('uncached', 'fresh', 'partial', 'complete', 'fresh-sequence'):
             check_object(ctx, R, spec, sj, L, state, rng)
+        if spec[0] == 'set':
+            for state in ('late-cached', 'late-uncached'):
+                ctx.count('late_member_objects')
+                check_object(ctx, R, spec, sj, L, state, rng)
         if spec[0] == 'rule':
             try:
                 check_replace(ctx, R, spec[1], rng)
